@@ -109,7 +109,7 @@ def build_worlds(case):
         argv_dirs = [d if d.startswith('/') else os.path.normpath(f'{PDIR}/{d}') for d in argv_dirs]
         for rel in list(progtree.split_files(main)) + ['nofile.asm']:
             files[f'/sim/w/{os.path.basename(rel)}'] = '  .byte $DE, $C0\n'
-    argv = ['bespokeasm', 'compile', '-c', isa_arg, main_arg, '-p', '-t', 'intel_hex']
+    argv = ['bespokeasm', 'compile', '-c', isa_arg, main_arg, '-p', '-t', 'intel_hex'] + ['-v'] * sched.get('verbosity', 0)
     for d in argv_dirs:
         argv += ['-I', d]
     if sched.get('main_symlink') and not sched.get('cwd_elsewhere'):
@@ -175,10 +175,10 @@ def check_case(case, ref_result=None):
         if failed(rs):
             v.append('INC-split-rejected')
         else:
-            # trailing fill is not compared: the reference's zone-restoring `.memzone` bracket is a (non-byte) line of its
-            # own, and a trailing non-byte line at the highest address extends the image by one fill byte (C03's business)
-            ia, ib = (rs['files'].get(img) or '').rstrip('\0'), (rr['files'].get(img) or '').rstrip('\0')
-            strip_w = lambda t: '\n'.join(x for x in t.split('\n') if not x.startswith('Writing '))
+            # images are compared exactly; the reference emits zone brackets only where they cannot become the
+            # address-wise last object (see progtree.reference_lines)
+            ia, ib = (rs['files'].get(img) or ''), (rr['files'].get(img) or '')
+            strip_w = lambda t: '\n'.join(x for x in t.split('\n') if x.startswith(':'))      # the Intel HEX records
             if ia != ib:
                 v.append('INC-image-differs')
                 a, b = rs['files'].get(img) or '', rr['files'].get(img) or ''
@@ -241,6 +241,8 @@ def gen_sched(rnd, ndirs, trivial=False):
         sc['main_symlink'] = True
     if rnd.random() < 0.2:
         sc['cwd_parent'] = True
+    if rnd.random() < 0.3:
+        sc['verbosity'] = rnd.choice([1, 2, 3])
     return sc
 
 
